@@ -1004,10 +1004,15 @@ def c12(tier, seed):
         jid = len(jobs) + 1
         jobs.append({"id": jid, "xml": xml, "events": seq, "mode": "preload", "timeout_ms": 20000})
         meta[jid] = (name, xml, kinds, init_kind, seq)
-    results = vlib.run_harness("run", jobs, wd, threads=8)
+    # (the whole batch normally takes a second; a process that hangs or dies is bisected down to the document that does it)
+    results = vlib.run_harness("run", jobs, wd, threads=8, isolate=True, timeout=90)
     runs = []
     for jid, (name, xml, kinds, init_kind, seq) in meta.items():
         r = results.get(jid, {})
+        if r.get("died") is not None:
+            V.report("process-died:%s" % name, "the process running document %s died (rc %s): %s" % (name, r["died"], str(r.get("tail"))[-160:]),
+                     {"scxml": xml, "events": seq, "rc": r["died"], "tail": r.get("tail")})
+            continue
         if "parse_error" in r:
             # not accepted by the reader: outside the property (but a reader panic is shown as information)
             continue
@@ -1795,11 +1800,13 @@ def c16_spellings(ms):
 def c16_doc(name, forms, cancel_ids, pairs=()):
     """forms: list of dict(k, id, kind, text, peer); pairs: (ka, kb) -> a transition 'pair.ka.kb' executing both sends back to back"""
     hdr = '<scxml xmlns="http://www.w3.org/2005/07/scxml" version="1.0" datamodel="rfsm-expression" name="%s">' % name
-    dm = '<datamodel><data id="x" expr="0"/><data id="n" expr="0"/><data id="peer" expr="0"/>'
+    dm = '<datamodel><data id="x" expr="0"/><data id="n" expr="0"/><data id="peer" expr="0"/><data id="idl" expr="\'none\'"/>'
     body = ""
     for f in forms:
         attrs = 'event="ev.%d"' % f["k"]
-        if f["id"]:
+        if f["id"] == "@loc":
+            attrs += ' idlocation="idl"'        # the platform generates the id and stores it in the data element 'idl'
+        elif f["id"]:
             attrs += ' id="%s"' % f["id"]
         if f["kind"] == "none":
             pass
@@ -1821,7 +1828,10 @@ def c16_doc(name, forms, cancel_ids, pairs=()):
         body += '<transition event="send.%d">%s</transition>' % (f["k"], blocks[f["k"]])
     for (ka, kb) in pairs:
         body += '<transition event="pair.%d.%d">%s%s</transition>' % (ka, kb, c16_doc._blocks[ka], c16_doc._blocks[kb])
-    for cid in cancel_ids:
+    if "@loc" in cancel_ids:
+        body += ('<transition event="cancel.gen"><script>mark(\'C0\', \'@loc\')</script><cancel sendidexpr="idl"/>'
+                 '<script>mark(\'C1\', \'@loc\')</script></transition>')
+    for cid in [c_ for c_ in cancel_ids if c_ != "@loc"]:
         body += ('<transition event="cancel.%s"><script>mark(\'C0\', \'%s\')</script><cancel sendid="%s"/>'
                  '<script>mark(\'C1\', \'%s\')</script></transition>') % (cid, cid, cid, cid)
     dm += "</datamodel>"
@@ -1862,7 +1872,7 @@ def c16_job(jid, cmds, rng, half_ms=C16_HALF_MS, tail_ms=None):
         if c["op"] == "send":
             ev = "send.%d" % forms[(c["id"], c["d"], c["s"] != c["tgt"])]["k"]
         elif c["op"] == "cancel":
-            ev = "cancel.%s" % c["id"]
+            ev = "cancel.%s" % (c["id"] if c["id"] != "@loc" else "gen")
         else:
             ev = c["op"]
         steps.append({"send": c["s"], "event": ev})
@@ -1882,6 +1892,7 @@ def c16_extract(r, flist):
         if name is None:
             continue
         open_s, open_c = {}, {}
+        last_gen = "@none"          # label of the send whose generated id the location 'idl' currently holds
         for x in sl["recs"]:
             ts = x[-1]
             if x[0] == "M":
@@ -1892,13 +1903,16 @@ def c16_extract(r, flist):
                     t0, val = open_s.pop((a[0], a[1]))
                     f = byk[int(a[0])]
                     inst = "%s.%s.%s" % (name, a[0], a[1])
-                    sends.append({"inst": inst, "sess": name, "id": f["id"], "mant": f["spell"][0], "scale": f["spell"][1],
+                    sid_ = f["id"]
+                    if sid_ == "@loc":
+                        sid_ = last_gen = "@gen:" + inst       # every execution generates a fresh id
+                    sends.append({"inst": inst, "sess": name, "id": sid_, "mant": f["spell"][0], "scale": f["spell"][1],
                                   "unit": f["spell"][2], "t0": t0, "t1": ts, "val": val,
                                   "tgt": ("B" if name == "A" else "A") if f["peer"] else name})
                 elif tag == "C0":
                     open_c[a[0]] = ts
                 elif tag == "C1":
-                    cancels.append({"sess": name, "id": a[0], "c0": open_c.pop(a[0]), "c1": ts})
+                    cancels.append({"sess": name, "id": a[0] if a[0] != "@loc" else last_gen, "c0": open_c.pop(a[0]), "c1": ts})
                 elif tag == "R":
                     recvs.append({"inst": "%s.%s.%s" % (a[0], a[1], a[2]), "sess": name, "t": ts, "val": a[3]})
             elif x[0] == "END":
@@ -1921,6 +1935,9 @@ C16_HAND = {
     "quit-receiver": [("send", "A", "", 5, "B", 0), ("quit", "B", "", 0, "B", 2), ("send", "A", "", 1, "A", 2)],
     "long-then-short": [("send", "A", "", 7, "B", 0), ("send", "A", "", 3, "B", 0), ("send", "A", "", 1, "B", 0), ("send", "A", "", 5, "B", 0)],
     "resend-after-cancel": [("send", "A", "x", 5, "A", 0), ("cancel", "A", "x", 0, "A", 2), ("send", "A", "x", 3, "A", 2)],
+    # ids generated by the platform (idlocation), cancelled through the location
+    "cancel-generated-id": [("send", "A", "@loc", 5, "A", 0), ("send", "A", "y", 5, "A", 0), ("cancel", "A", "@loc", 0, "A", 2)],
+    "generated-ids-two": [("send", "A", "@loc", 5, "B", 0), ("send", "A", "@loc", 7, "B", 0), ("cancel", "A", "@loc", 0, "A", 2)],
 }
 
 
